@@ -6,7 +6,7 @@ BASE_NOTE = ("Trusted: Lean 4.33 kernel + Mathlib definitions; axioms propext/Cl
              "PyTorch ops compute the functions they name up to rounding. Not modelled: floating-point rounding. ")
 CHECKS = {
     'C01': dict(engine='calc', technique='Lean 4 theorems over a model re-translated from source on every run (symbolic trace of the real enforce() code, verified symbolic derivative D_sound, kernel-checked linear_combination certificates)',
-                text='IVP (both modes), DirichletBVP and DoubleEndedBVP1D DD/DN/ND/NN, multi-network and ith-unit modes: value / HasDerivAt at the constrained points proved for every network symbol and all real parameters (t0 != t1 either orientation). The traced definitions are regenerated from /repo each run and replayed numerically against the real code.',
+                text='IVP (both modes), DirichletBVP and DoubleEndedBVP1D DD/DN/ND/NN, multi-network and ith-unit modes: value / HasDerivAt at the constrained points proved for every network symbol and all real parameters (t0 != t1 either orientation); away from the constrained points u = A + B*N(t) with explicit A, B not mentioning N(t) and B != 0 (non-vanishing proved from a regenerated factorisation). The traced definitions are regenerated from /repo each run and replayed numerically against the real code.',
                 design='§7 C01'),
 }
 
@@ -18,8 +18,8 @@ CHECKS.update({
     'C08': dict(engine='calc', technique=T, design='§7 C08',
                 text='grad/laplacian/div in 1..4 dimensions, curl, vector_laplacian, zero components for omitted coordinates, and the compositions div∘grad, curl∘grad, div∘curl, curl∘curl, laplacian∘laplacian: each traced output equals the textbook expression in partial-derivative atoms of arbitrary field symbols (true partials by D_sound).'),
     'C09': dict(engine='calc', technique=T, design='§7 C09',
-                text='All 10 spherical/cylindrical operators (22 components): traced output = local-frame component of the Cartesian operator applied to an arbitrary Cartesian field symbol composed with the coordinate map, for r != 0, sin(theta) != 0 (rho != 0). Conversion helpers: partial (see note).',
-                note='Partial: the four coordinate-conversion helpers (atan2/sqrt) are exercised by the failing-input search only, not yet by theorems.'),
+                text='All 10 spherical/cylindrical operators (22 components): traced output = local-frame component of the Cartesian operator applied to an arbitrary Cartesian field symbol composed with the coordinate map, for r != 0, sin(theta) != 0 (rho != 0). Conversion helpers (traced, tied to reference functions): Cartesian->curvilinear->Cartesian is the identity everywhere, the converse on the principal ranges, documented ranges of r, theta, phi (hand-written Lean proofs over Complex.arg).',
+                ),
     'C10': dict(engine='calc', technique=T, design='§7 C10',
                 text='BundleIVP (value and derivative mode) and BundleDirichletBVP traced per lookup configuration over 4 extra columns (quick: fixed corner cases + seeded sample; thorough: all 355 configuration/mode pairs): row-wise value / HasDerivAt at t0_row (and t1_row) equals the routed parameter, for all networks and all column values (unused columns universally quantified).'),
     'C11': dict(engine='calc', technique=T + '; hand-written Lean proof of the limit clause over a certificate-checked reference form', design='§7 C11',
